@@ -6,17 +6,33 @@ IMPLEMENTATION's output. Prints `DIFF <lineno>` / `SPEC <lineno> <property> <wha
 final `SUMMARY` line.
 -/
 import Drv.Codec
+import Drv.Side
 open GoStd Driver
 
 structure DrvState where
-  dummy : Unit := ()
+  side : SideState := {}
 
 def execOp (st : DrvState) (toks : List String) : DrvState × String :=
   match toks with
   | "std" :: op :: args => (st, execStd op args)
   | "codec" :: op :: args => (st, execCodec op args)
   | "msg" :: op :: args => (st, execMsg op args)
+  | stream :: op :: args =>
+    if ["rr", "route", "res", "pins", "pool"].contains stream then
+      let (s', out) := execSide st.side stream op args
+      ({ st with side := s' }, out)
+    else (st, "bad-op")
   | _ => (st, "bad-op")
+
+/-- stateful oracles (observers) fed with the implementation's output -/
+def specStateful (st : DrvState) (toks impl : List String) : DrvState × List String :=
+  match toks with
+  | stream :: op :: args =>
+    if ["rr", "route", "res", "pins", "pool"].contains stream then
+      let (s', errs) := specSide st.side stream op args impl
+      ({ st with side := s' }, errs)
+    else (st, [])
+  | _ => (st, [])
 
 /-- Specification oracle on the implementation's output. `expect` is the token list after "#":
 `spec=<id> <kind> <fields…>`. Returns the failures. -/
@@ -49,13 +65,18 @@ partial def loop (ops impl : Array String) (i : Nat) (st : DrvState) (out : IO.F
     let line := ops[i]
     let implLine := (impl[i]?).getD "<missing>"
     let (toks, expect) := splitExpect line
-    let (st', modelOut) := execOp st toks
+    -- observers see the state BEFORE the model executes the op (tables are shared)
+    let (stObs, obsErrs) := specStateful st toks (words implLine)
+    let (st', modelOut) := execOp stObs toks
     out.putStrLn modelOut
     let mut d := diffs
     let mut s := specs
     if modelOut != implLine then
       IO.println s!"DIFF {i + 1}"
       d := d + 1
+    for f in obsErrs do
+      IO.println s!"SPEC {i + 1} {f}"
+      s := s + 1
     -- several oracles may be chained with " # "
     let segs := (line.splitOn " # ").drop 1
     for seg in segs do
